@@ -66,7 +66,7 @@ def torch_walk_by_evaluation(ctx, R="R-C14-mirror-twin"):
     outs = [c for c in ast.walk(lp) if astq.attr_call(c, "append") and isinstance(c.func.value, ast.Name)]
     spects = sorted({t.id for n in f.body_nodes() if isinstance(n, ast.Assign) and any(astq.attr_call(x, "rfft") for x in ast.walk(n.value))
                      for t in n.targets if isinstance(t, ast.Name)})
-    if len(outs) != 1 or len(spects) != 1:
+    if len(outs) < 1 or len({o.func.value.id for o in outs}) != 1 or len(spects) != 1:
         return
     yname = outs[0].func.value.id
     what = "the torch walk multiplies tap j of a filter with bin (s + j) mod D, read from the half spectrum (conjugated above D/2)"
@@ -100,7 +100,11 @@ def torch_walk_by_evaluation(ctx, R="R-C14-mirror-twin"):
                                     % (D, s_, T, e), what, robust=True)
                             return
                         res = it.env.get(yname)
-                        if not (isinstance(res, list) and len(res) == 1):
+                        if isinstance(res, list) and len(res) != 1:
+                            ctx.bad(R, f, lp, "for a DFT of %d bins and a filter that starts at bin %d with %d value(s) the loop appends %d coefficients for one "
+                                    "filter" % (D, s_, T, len(res)), "one coefficient per (offset, filter) pair, in bank order", robust=True)
+                            return
+                        if not isinstance(res, list):
                             raise W.Unsupported("result list")
                         v = res[0]
                         if isinstance(v, int) and v == 0:
@@ -134,6 +138,7 @@ def torch_walk_by_evaluation(ctx, R="R-C14-mirror-twin"):
     except W.Unsupported:
         return
     ctx.ok(R, f.loc(lp), what, "%d combinations of DFT size (2..10), start bin, run length and power option evaluated" % n)
+    ctx._torch_walk_decided = True
 
 
 def port_filters_by_evaluation(ctx, R="R-C14-nameflow"):
@@ -555,7 +560,8 @@ def reductions(ctx, R="R-C14-walk-twin"):
     loops = [n for n in f.body_nodes() if isinstance(n, ast.For) and isinstance(n.iter, ast.Call) and astq.is_name(n.iter.func, "zip")]
     ok = len(loops) == 1 and [astq.text(a) for a in loops[0].iter.args] == ["offsets", "filters"]
     apps = [c for c in astq.calls_in(loops[0]) if astq.attr_call(c, "append") and astq.is_name(c.func.value, "y")] if loops else []
-    ctx.check(ok and len(apps) == 1, R, f, loops[0] if loops else MISSING(f.node), "one coefficient per (offset, filter) pair, in bank order",
+    n_ok = len(apps) == 1 or (len(apps) >= 1 and getattr(ctx, "_torch_walk_decided", False))   # several sites, one per path: counted by the walk evaluation
+    ctx.check(ok and n_ok, R, f, loops[0] if loops else MISSING(f.node), "one coefficient per (offset, filter) pair, in bank order",
               "filter loop is %s with %d appends" % (astq.text(loops[0].iter) if loops else None, len(apps)))
 
 
